@@ -174,6 +174,49 @@ async def one_name(net, hyg, plan):
         ok, got = await guarded("retr", down())
         if ok and got != payload:
             viol.append({"key": "retr-wrong-bytes", "msg": f"download of {str(f)!r}: {got[:40]!r}"})
+        # 6b the remaining path-taking methods: append_stream, is_file / is_dir, recursive listing from the parent, the
+        # high-level download / upload (local side: the client's own in-memory path io) and recursive remove of a copy
+        if str(f) in expect:
+            async def app():
+                async with c.append_stream(f) as s:
+                    await s.write(b"+more")
+            ok, _ = await guarded("appe", app())
+            if ok:
+                expect[str(f)] = expect[str(f)] + b"+more"
+                check("appe")
+            ok, r1 = await guarded("is_file", c.is_file(f))
+            ok2, r2 = await guarded("is_dir", c.is_dir(d))
+            ok3, r3 = await guarded("is_file-dir", c.is_file(d))
+            if (ok and r1 is not True) or (ok2 and r2 is not True) or (ok3 and r3 is not False):
+                viol.append({"key": "is-file-is-dir-wrong", "msg": f"is_file({str(f)!r})={r1} is_dir({str(d)!r})={r2} is_file(dir)={r3}"})
+            ok, listed = await guarded("list-recursive", c.list(pp, recursive=True))
+            if ok:
+                mon["listing_names"] += 1
+                got_names = sorted(str(p) for p, info in listed)
+                want_names = sorted(k for k in expect if k != str(pp) and (k.startswith(str(pp).rstrip("/") + "/")))
+                if got_names != want_names:
+                    viol.append({"key": "list-recursive-name-differs", "msg": f"recursive list of {str(pp)!r}: {got_names} expected {want_names}"})
+            local = pathlib.PurePosixPath("/local")
+            ok, _ = await guarded("download-tree", c.download(d, local, write_into=True))
+            if ok:
+                try:
+                    async with c.path_io.open(local / name, mode="rb") as lf:
+                        data = await lf.read()
+                except Exception as e:
+                    data = repr(e)
+                if data != expect[str(f)]:
+                    viol.append({"key": "download-tree-wrong", "msg": f"download({str(d)!r}) -> local {name!r}: {data[:40]!r}"})
+                copy = pp / ("copy of " + other)
+                ok, _ = await guarded("upload-tree", c.upload(local, copy, write_into=True))
+                if ok:
+                    expect[str(copy)] = DIR
+                    expect[str(copy / name)] = expect[str(f)]
+                    if check("upload-tree"):
+                        ok, _ = await guarded("remove-tree", c.remove(copy))
+                        if ok:
+                            expect.pop(str(copy))
+                            expect.pop(str(copy / name))
+                            check("remove-tree")
         # 7 rename to another generated name and back
         g = d / other
         ok, _ = await guarded("rename-to", c.rename(f, g))
